@@ -1237,7 +1237,13 @@ def loopback_listener_docs(ctx, table, gen, n):
         return evs
     try:
         import requests
-        for label, body, _ in listener_requests(gen, n):
+        reqs = []
+        for _ in range(n):
+            try:
+                reqs += listener_requests(gen, 1)
+            except (TypeError, ValueError):
+                pass
+        for label, body, _ in reqs:
             try:
                 rsp = requests.post(
                     "http://127.0.0.1:%d" % port, data=body, timeout=10,
@@ -1372,9 +1378,8 @@ def model_checks(ctx):
               "failing_cases": len(ops),
               "failing_operations": sorted(set(ops)),
               "note": "design-level counterexamples of the transcription of "
-                      "the tree as pinned (ExportIndication keeps the "
-                      "instance path, SCOPE ANY attribute, repr() of real "
-                      "keys in CIMObject); the repaired variant passes"}
+                      "the tree as originally pinned (flags export_path, "
+                      "scope_any, real_repr); the repaired variant passes"}
     if r.rc not in (0, 12) and not r.violated:
         raise vlib.MachineryError("WireOpsImplPinned.cfg: TLC failed\n"
                                   + r.out[-2000:])
@@ -1519,7 +1524,11 @@ def build_doc(table, optable, seed, recipe):
                 "%s with %r at %s" % (type(o).__name__, bad, recipe["place"])
         if d == "listener":
             g = Gen(rng)
-            label, body, full = listener_requests(g, 1)[0]
+            try:
+                label, body, full = listener_requests(g, 1)[0]
+            except (TypeError, ValueError) as exc:  # object pywbem refuses
+                return make_event(table, "lsn", "construction", None,
+                                  exc=type(exc).__name__), None, "-"
             lh = W.ListenerHarness()
             lh.full = full
             try:
@@ -1584,17 +1593,26 @@ def plan(ctx, cases, optable):
     return recipes
 
 
-def signature(ev, clauses, hdrs=None):
-    cl = sorted(clauses)
+def signatures(ev, clauses, hdrs=None):
+    """One signature per independent failure: well-formedness and Char-ness
+    go together (one cause); every DtdValid / HeadersAgree clause is reported
+    on its own, so that a known finding never hides another clause."""
+    out = []
     nonchar = sorted(set(ev["cls"]) - CHAR_CLASSES)
-    cause = ""
-    if nonchar:
-        cause = ":" + "+".join(nonchar)
-    elif any(c.startswith("HeadersAgree") for c in cl):
-        cause = ":" + header_class(hdrs)
-        if ev["hdr"]["form"] == "unparsable":
-            cause += "+keyvalue-syntax"
-    return "C03:%s:%s%s" % (ev["kind"], "+".join(cl), cause)
+    wfc = sorted(c for c in clauses if c in ("WellFormed", "Representable"))
+    if wfc:
+        out.append("C03:%s:%s:%s" % (ev["kind"], "+".join(wfc),
+                                     "+".join(nonchar) or "-"))
+    for c in sorted(clauses):
+        if c in ("WellFormed", "Representable"):
+            continue
+        cause = ""
+        if c.startswith("HeadersAgree"):
+            cause = ":" + header_class(hdrs)
+            if ev["hdr"]["form"] == "unparsable":
+                cause += "+keyvalue-syntax"
+        out.append("C03:%s:%s%s" % (ev["kind"], c, cause))
+    return out
 
 
 def run(ctx):
@@ -1699,15 +1717,15 @@ def run(ctx):
         hdrs = None
         if isinstance(raw, tuple):
             raw, hdrs = raw
-        sig = signature(ev, v["clauses"], hdrs)
         rawtxt = raw if isinstance(raw, str) else \
             (raw or b"").decode("utf-8", "replace")
-        ctx.report(sig, "%s: %s violates %s" % (
-            ev["kind"], desc[:300], ", ".join(v["clauses"])),
-            {"recipe": rc, "clauses": v["clauses"], "op": ev["op"],
-             "document": rawtxt[:1500], "hdr": ev["hdr"],
-             "headers": {k: str(v) for k, v in (hdrs or {}).items()
-                         if k.lower().startswith("cim")}})
+        for sig in signatures(ev, v["clauses"], hdrs):
+            ctx.report(sig, "%s: %s violates %s" % (
+                ev["kind"], desc[:300], ", ".join(v["clauses"])),
+                {"recipe": rc, "clauses": v["clauses"], "op": ev["op"],
+                 "document": rawtxt[:1500], "hdr": ev["hdr"],
+                 "headers": {k: str(x) for k, x in (hdrs or {}).items()
+                             if k.lower().startswith("cim")}})
     ctx.extra["drivers"] = stats
     ops_emitted = sorted({ev["op"] for ev, rc in zip(events, recipes)
                           if rc["driver"] in ("case", "call")
